@@ -220,38 +220,58 @@ class C02(Check):
                         lex[min(pos, len(lex) - 1)] = rng.choice(BAD_LEX)
             text = U.join(lex, rng.choice([0, 1, 1]), rng) if rng.random() < 0.85 else "".join(lex)
             env = [["A", "2"]] if rng.random() < 0.3 else []
-            out.append([text, env, 0, 0, 1 if i % 25 == 0 else 0])
+            # the finder route goes through the line splicer / comment stripper (C05's subject): keep their triggers out
+            plain = not any(c in text for c in "\\'\"") and "//" not in text and "/*" not in text
+            out.append([text, env, 0, 0, 1 if (i % 25 == 0 and plain) else 0])
             self.hist["block"]["malformed"] = self.hist["block"].get("malformed", 0) + 1
         return out
 
     # ------------------------------------------------------------ encoding for the driver
+    KINDS = {"NumericalConstant": 0, "CharacterConstant": 1, "StringConstant": 2, "Identifier": 3,
+             "Operator": 4, "Punctuator": 5, "Unknown": 6}
+
+    def _toks(self, toks):
+        return [[self.KINDS[type(t).__name__], str(t.token)] for t in toks]
+
     def encode(self, case):
+        """M works on the tokens the real Lexer produces (the lexer is exercised by I-vs-S only);
+        S works on the AST, with macro identifiers replaced by the AST of their (parenthesised) body."""
+        _setup()
+        from codebasin import preprocessor as pp
         text, env, ast, envast, _find = case
+        toks = self._toks(pp.Lexer(text).tokenize())
+        macros = []
+        for n, b in env:
+            m = pp.macro_from_definition_string(f"{n}={b}")
+            macros.append([m.name, self._toks(m.replacement)])
+        envd = {n: (None if b == 0 else b) for n, b in (envast or [])}
+        bad = ["L", "", ""]
 
         def ea(n):
             k = n[0]
             if k == "L":
-                return ["L", n[1], n[2], n[3].encode(), n[4]]
+                r = U.render_lit(n)
+                return ["L", r[:len(r) - len(n[3])], n[3]]
             if k == "C":
-                return ["C", n[1], n[2], n[3]]
-            if k in ("I",):
-                return ["I", n[1].encode()]
+                return ["C", U.render_char(n)[1:-1]]
+            if k == "I":
+                if n[1] in envd:
+                    return bad if envd[n[1]] is None else ea(envd[n[1]])
+                return ["I", n[1]]
             if k == "D":
-                return ["D", n[1].encode(), n[2]]
+                return ["D", n[1], 1 if n[2] else 0]
             if k == "F":
-                return ["F", n[1].encode(), [ea(a) for a in n[2]]]
+                return bad
             if k == "P":
                 return ["P", ea(n[1])]
             if k == "U":
-                return ["U", n[1].encode(), ea(n[2])]
+                return ["U", n[1], ea(n[2])]
             if k == "B":
-                return ["B", n[1].encode(), ea(n[2]), ea(n[3])]
+                return ["B", n[1], ea(n[2]), ea(n[3])]
             if k == "T":
                 return ["T", ea(n[1]), ea(n[2]), ea(n[3])]
             raise ValueError(n)
-        e_ast = ea(ast) if ast else 0
-        e_envast = [[n.encode(), (ea(b) if b else 0)] for n, b in envast] if envast else (0 if not ast else [])
-        return enc([text.encode("latin-1", "replace"), [[n.encode(), b.encode()] for n, b in env], e_ast, e_envast])
+        return enc([toks, macros, ea(ast) if ast else 0])
 
     # ------------------------------------------------------------ the implementation
     def impl(self, case):
@@ -276,14 +296,27 @@ class C02(Check):
                 raise RuntimeError("not an IfNode")
             return node.evaluate_for_platform(platform=p, filename="x.c", state=None)
         ans = canon(route_node)
+        if ans[0] == "Ok":
+            # the value behind the truth (for the I~M comparison only)
+            try:
+                import numpy as np
+                p = cbplatform.Platform("P", str(root))
+                for n, b in env:
+                    m = pp.macro_from_definition_string(f"{n}={b}")
+                    p.define(m.name, m)
+                v = pp.ExpressionEvaluator(pp.MacroExpander(p).expand(pp.Lexer(text).tokenize())).expression()
+                ty = 1 if type(v) is np.uint64 else 0 if type(v) is np.int64 else type(v).__name__
+                ans = ans + [int(v), ty]
+            except Exception as e:  # noqa
+                ans = ans + ["expression() raised", type(e).__name__]
         self.hist["impl_err"][ans[1] if ans[0] == "Err" else "Ok"] = self.hist["impl_err"].get(ans[1] if ans[0] == "Err" else "Ok", 0) + 1
         if not env and "defined" not in text:
             a2 = canon(lambda: pp.ExpressionEvaluator(pp.Lexer(text).tokenize()).evaluate())
-            if a2 != ans:
+            if a2 != ans[:2]:
                 return ["Err", "RoutesDisagree", {"evaluate_for_platform": ans, "evaluate": a2}]
         if find:
             a3 = self._find_route(text, env)
-            if a3 != ans:
+            if a3 != ans[:2]:
                 return ["Err", "RoutesDisagree", {"evaluate_for_platform": ans, "finder.find": a3}]
         return ans
 
@@ -322,11 +355,13 @@ class C02(Check):
     def model_view(self, case, ans):
         m = ans[0]
         if m[0] == "Ok":
-            return ["Ok", m[1]]
+            return ["Ok", m[1], m[2], m[3]]
+        if m[1] == "Unsupported":
+            return None
         return ["Err", m[1]]
 
     def impl_view_for_model(self, case, ia):
-        return ia[:2]
+        return ia[:4] if ia[0] == "Ok" else ia[:2]
 
     def impl_view_for_spec(self, case, ia):
         return ia[:2]
@@ -338,10 +373,13 @@ class C02(Check):
         py = U.sem_canon(case[2], case_env(case))
         if self._m(ans):
             cq = ans[1]
-            cqv = cq if cq[0] == "Ok" else ["UB"]
-            if cqv != (py if py[0] == "Ok" else ["UB"]) and len(self.s_mismatch) < 5:
+            # inside the quantifier (the strict Python oracle is defined) the Coq S must give the same value;
+            # outside, the Coq S may still be defined (it wraps on signed overflow), which is not compared
+            if py[0] == "Ok" and cq != py and len(self.s_mismatch) < 5:
                 self.s_mismatch.append({"case": case[0], "coq_S": cq, "python_oracle": py})
-            return cq if cq[0] == "Ok" else ["UB", "coq"]
+            if py[0] != "Ok":
+                return py
+            return cq if isinstance(cq, list) and cq[0] == "Ok" else ["UB", "coq:" + str(cq)]
         return py
 
     def spec(self, case, ans):
@@ -376,7 +414,7 @@ class C02(Check):
     # ------------------------------------------------------------ known-finding classes (NARROW)
     def classify(self, case, ia, sa):
         """hex-intmax-overflow: the implementation raises OverflowError AND the text contains an unsuffixed
-        (no u/U) octal/hex/binary literal whose value is in [2^63, 2^64) AND replacing every such literal by
+        (no u/U) octal/hex/binary literal (in the expression or in a macro body) whose value is in [2^63, 2^64) AND replacing every such literal by
         its u-suffixed spelling makes the implementation agree with S."""
         if ia[:2] != ["Err", "OverflowError"]:
             return None
@@ -392,9 +430,10 @@ class C02(Check):
                 return digits + "u" + m.group(2)
             return m.group(0)
         text2 = pat.sub(fix, text)
+        env2 = [[n, pat.sub(fix, b)] for n, b in case[1]]
         if not hit[0]:
             return None
-        ia2 = self.impl([text2, case[1], 0, 0, 0])
+        ia2 = self.impl([text2, env2, 0, 0, 0])
         if ia2[:2] == sa:
             return "hex-intmax-overflow"
         return None
